@@ -314,7 +314,7 @@ class MyPyAstVisitor:
             if (
                 result_type is not None
                 and result_doc_type is not None
-                and result_type != result_doc_type
+                and result_type.type != result_doc_type
                 and self.type_source_warning == TypeSourceWarning.WARN
             ):
                 msg = f"Different type hint and docstring types for the result of '{function_id}'."
